@@ -66,7 +66,8 @@ let () = run_table [
   (* fingerprint as the code computes it, RFC 12.2 value over the RFC 5.5.2 body written from the fields,
      publen, the emitted public body, the RFC body *)
   "fp", (fun args -> let k = key_only args in
-      let body = pub_packet_body k in
+      (* the public body as exported: of the packet itself when it is public, of its pubkey() twin otherwise *)
+      let body = (match k.k_sec with None -> key_body k | Some _ -> pub_packet_body k) in
       let rfcb = rfc_pub_body k.k_created k.k_alg k.k_mat in
       String.concat " " [hex_of_bytes_strict (fingerprint sha1 k);
         hex_of_bytes_strict (rfc_fingerprint sha1 rfcb); hexnum_of_z (publen k); hex_of_bytes_strict body; hex_of_bytes_strict rfcb]);
